@@ -6,6 +6,7 @@ package main
 // peer API and detector recorder. Shared by C02, C03, C04, C06, C07, C10, C17.
 
 import (
+	"bufio"
 	"bytes"
 	"context"
 	"errors"
@@ -21,6 +22,7 @@ import (
 	"sync"
 	"time"
 
+	"github.com/go-redis/redis/v8"
 	"github.com/refraction-networking/conjure/pkg/core"
 	"github.com/refraction-networking/conjure/pkg/core/interfaces"
 	"github.com/refraction-networking/conjure/pkg/phantoms"
@@ -57,6 +59,7 @@ type stOpts struct {
 	shareAPI     bool
 	groups       []stSubnetGroup // generation 1
 	noIngest     bool
+	realDetector bool // keep the real sendToDetector / clearDetector and give them a go-redis client over a simulated connection
 }
 
 type stAnn struct {
@@ -126,6 +129,9 @@ type stWorld struct {
 	ingestDone bool
 	covertPlan func(S *simnet.Conn) // optional: fault plan for covert connections
 	liveCached bool                 // live verdicts are reported as cached ones
+	redis      *redis.Client
+	redisConns []*simnet.Conn
+	published  []stPublished
 }
 
 func stDefaultOpts() stOpts {
@@ -198,9 +204,13 @@ func newStWorld(r *sim.Run, s *hook.Sched, tp *sim.Tape, o stOpts) *stWorld {
 	w.rm.LivenessTester = &stTester{w}
 	sharedLogger = w.rm.Logger
 	logClientIP = false
-	cj.VerifSetDetector(w.rm,
-		func(d *cj.DecoyRegistration) { w.announce("new", d) },
-		func(d *cj.DecoyRegistration) { w.announce("update", d) })
+	if o.realDetector {
+		w.startRedis()
+	} else {
+		cj.VerifSetDetector(w.rm,
+			func(d *cj.DecoyRegistration) { w.announce("new", d) },
+			func(d *cj.DecoyRegistration) { w.announce("update", d) })
+	}
 	w.rm.AddTransport(pb.TransportType_Min, min.Transport{})
 	w.rm.AddTransport(pb.TransportType_Obfs4, obfs4.Transport{})
 	pt, err := prefix.Default([][32]byte{w.priv})
@@ -226,9 +236,99 @@ func newStWorld(r *sim.Run, s *hook.Sched, tp *sim.Tape, o stOpts) *stWorld {
 	return w
 }
 
+// startRedis gives the package-level redis client of pkg/station/lib a real
+// go-redis client whose connections are simulated and end at an in-process
+// RESP stub that records every PUBLISH.
+func (w *stWorld) startRedis() {
+	n := 0
+	w.redis = redis.NewClient(&redis.Options{
+		Addr:               "detector.invalid:6379",
+		PoolSize:           4,
+		IdleCheckFrequency: -1,
+		MaxRetries:         -1,
+		Dialer: func(ctx context.Context, network, addr string) (net.Conn, error) {
+			w.mu.Lock()
+			n++
+			k := n
+			w.mu.Unlock()
+			c, srv := simnet.Pipe(w.r, fmt.Sprintf("redis%d.station", k), fmt.Sprintf("redis%d.stub", k), simnet.TCP("127.0.0.1", 50000+k), simnet.TCP("127.0.0.1", 6379))
+			c.Quiet, srv.Quiet = true, true
+			w.mu.Lock()
+			w.redisConns = append(w.redisConns, c, srv)
+			w.mu.Unlock()
+			go w.respStub(srv)
+			return c, nil
+		},
+	})
+	cj.VerifSetRedis(w.redis)
+}
+
+// respStub answers RESP commands: PUBLISH is recorded and answered with the
+// number of subscribers (1), everything else with +OK / +PONG.
+func (w *stWorld) respStub(c *simnet.Conn) {
+	br := bufio.NewReader(c)
+	readLine := func() (string, error) {
+		l, err := br.ReadString('\n')
+		return strings.TrimRight(l, "\r\n"), err
+	}
+	for {
+		l, err := readLine()
+		if err != nil {
+			return
+		}
+		if !strings.HasPrefix(l, "*") {
+			continue
+		}
+		var nargs int
+		fmt.Sscanf(l[1:], "%d", &nargs)
+		var args [][]byte
+		for i := 0; i < nargs; i++ {
+			h, err := readLine()
+			if err != nil {
+				return
+			}
+			var ln int
+			fmt.Sscanf(h[1:], "%d", &ln)
+			b := make([]byte, ln+2)
+			if _, err := io.ReadFull(br, b); err != nil {
+				return
+			}
+			args = append(args, b[:ln])
+		}
+		if len(args) == 0 {
+			continue
+		}
+		switch strings.ToUpper(string(args[0])) {
+		case "PUBLISH":
+			if len(args) == 3 {
+				w.mu.Lock()
+				w.published = append(w.published, stPublished{channel: string(args[1]), payload: append([]byte(nil), args[2]...), at: w.r.Elapsed()})
+				w.mu.Unlock()
+			}
+			c.Write([]byte(":1\r\n"))
+		case "PING":
+			c.Write([]byte("+PONG\r\n"))
+		default:
+			c.Write([]byte("+OK\r\n"))
+		}
+	}
+}
+
+type stPublished struct {
+	channel string
+	payload []byte
+	at      time.Duration
+}
+
 // close tears the world down: stop the ingest pipeline, close every simulated
 // connection end, abort what is left.
 func (w *stWorld) close() {
+	if w.redis != nil {
+		w.redis.Close()
+		for _, c := range w.redisConns {
+			c.Close()
+		}
+	}
 	w.cancel()
 	close(w.regChan)
 	w.s.Abort()
